@@ -386,7 +386,13 @@ def _n9_function(func):
                 if stores.get(t) == 1 and t not in params and t not in nested and t not in declared and t not in special and _pure(st.value) \
                         and not isinstance(st.value, ast.Constant) and location_stable(st.value):
                     free = {y.id for y in ast.walk(st.value) if isinstance(y, ast.Name)}
-                    if t not in free and all(stores.get(y, 0) == 0 for y in free) and total_loads.get(t, 0) == loads_in(stmts[i + 1:], t) and total_loads.get(t, 0) > 0:
+                    def settled(y):
+                        """y is never re-bound, or bound exactly once by a plain assignment earlier in this very statement list"""
+                        if stores.get(y, 0) == 0:
+                            return True
+                        return stores.get(y, 0) == 1 and y not in special and any(
+                            isinstance(p_, ast.Assign) and len(p_.targets) == 1 and isinstance(p_.targets[0], ast.Name) and p_.targets[0].id == y for p_ in stmts[:i])
+                    if t not in free and all(settled(y) for y in free) and total_loads.get(t, 0) == loads_in(stmts[i + 1:], t) and total_loads.get(t, 0) > 0:
                         for j in range(i + 1, len(stmts)):
                             stmts[j] = Sub(t, st.value).visit(stmts[j])
                         del stmts[i]
@@ -681,9 +687,17 @@ def _n14(tree):
                     while isinstance(inner, ast.If) and not inner.orelse and len(inner.body) == 1:
                         conds.append(inner.test)
                         inner = inner.body[0]
-                    if isinstance(inner, ast.Expr) and isinstance(inner.value, ast.Call) and isinstance(inner.value.func, ast.Attribute) and inner.value.func.attr == "append" \
-                            and isinstance(inner.value.func.value, ast.Name) and inner.value.func.value.id == x and len(inner.value.args) == 1 and not inner.value.keywords:
-                        elt = inner.value.args[0]
+                    def appended(st_):
+                        if isinstance(st_, ast.Expr) and isinstance(st_.value, ast.Call) and isinstance(st_.value.func, ast.Attribute) and st_.value.func.attr == "append" \
+                                and isinstance(st_.value.func.value, ast.Name) and st_.value.func.value.id == x and len(st_.value.args) == 1 and not st_.value.keywords:
+                            return st_.value.args[0]
+                        return None
+                    elt = appended(inner)
+                    if elt is None and isinstance(inner, ast.If) and len(inner.body) == 1 and len(inner.orelse) == 1 \
+                            and appended(inner.body[0]) is not None and appended(inner.orelse[0]) is not None:
+                        # exactly one element per iteration either way: `A if c else B`
+                        elt = ast.copy_location(ast.IfExp(test=inner.test, body=appended(inner.body[0]), orelse=appended(inner.orelse[0])), inner)
+                    if elt is not None:
                         mentions_x = any(isinstance(y, ast.Name) and y.id == x for e in [elt, b.iter] + conds for y in ast.walk(e))
                         if not mentions_x:
                             comp = ast.ListComp(elt=elt, generators=[ast.comprehension(target=b.target, iter=b.iter, ifs=conds, is_async=0)])
